@@ -780,6 +780,8 @@ def c18_stack(tier):
             rows.append({"scenario": name, "n": n, "thread_2MiB": thr, "exit": rc, "drop_depth_span_bytes": span})
             if rc != 0 or "DONE" not in out:
                 findings.append(_F("O", "stack: scenario %s n=%d%s ended with exit status %s (%s)" % (name, n, " on a 2 MiB thread" if thr else "", rc, err.strip()[-120:])))
+            elif "teardown_order=mixed" in out:
+                findings.append(_F("O", "stack: scenario %s n=%d frees the nodes out of key order; the modelled teardown loop frees them in ascending order" % (name, n)))
             elif span is not None and span > 2048:
                 # an iterative teardown drops every key at the same stack depth; recursion shows as a span
                 findings.append(_F("O", "stack: scenario %s n=%d drops keys over a stack depth range of %d bytes: the teardown recurses" % (name, n, span)))
